@@ -55,6 +55,36 @@ func treeStore(p *core.Prog, st *ssa.Store) (isTree bool, field *types.Var, base
 			continue
 		case *ssa.UnOp:
 			if a.Op == token.MUL {
+				// a pointer kept in a field of a local struct (a table of {target, other}
+				// pointer pairs): the addresses stored into that field in this function
+				if fa2, ok := a.X.(*ssa.FieldAddr); ok && !isTree {
+					if fv2 := core.FieldOf(fa2); fv2 != nil && (fv2.Pkg() == nil || fv2.Pkg().Path() != pkgDirectives) {
+						var res *types.Var
+						okAll, any := true, false
+						core.EachInstr(st.Parent(), func(ins ssa.Instruction) {
+							s2, ok := ins.(*ssa.Store)
+							if !ok {
+								return
+							}
+							f3, ok := s2.Addr.(*ssa.FieldAddr)
+							if !ok || core.FieldOf(f3) != fv2 {
+								return
+							}
+							any = true
+							tgt, ok := s2.Val.(*ssa.FieldAddr)
+							if !ok || core.FieldOf(tgt) == nil || core.FieldOf(tgt).Pkg() == nil || core.FieldOf(tgt).Pkg().Path() != pkgDirectives {
+								okAll = false
+								return
+							}
+							if res == nil {
+								res = core.FieldOf(tgt)
+							}
+						})
+						if any && okAll && res != nil {
+							return true, res, a
+						}
+					}
+				}
 				addr = a.X
 				continue
 			}
@@ -314,31 +344,35 @@ func RuleCInferFresh(c *core.Ctx) {
 		})
 	}
 	type event struct {
-		at ssa.Instruction
-		fa *ssa.FieldAddr
+		at  ssa.Instruction
+		fa  *ssa.FieldAddr
+		ptr ssa.Value // when the store goes through a pointer value rather than a field address
+		fv  *types.Var
 	}
 	for fn := range scope {
 		var stores []event
 		core.EachInstr(fn, func(ins ssa.Instruction) {
 			switch x := ins.(type) {
 			case *ssa.Store:
-				if fa, ok := x.Addr.(*ssa.FieldAddr); ok {
-					if isTree, fv, _ := treeStore(p, x); isTree && (fv == credit || fv == debit) {
-						stores = append(stores, event{x, fa})
+				if isTree, fv, _ := treeStore(p, x); isTree && (fv == credit || fv == debit) {
+					if fa, ok := x.Addr.(*ssa.FieldAddr); ok {
+						stores = append(stores, event{x, fa, nil, fv})
+					} else if _, isParam := x.Addr.(*ssa.Parameter); !isParam {
+						stores = append(stores, event{x, nil, x.Addr, fv})
 					}
 				}
 			case *ssa.Call:
 				// a call of a helper that replaces the account its pointer argument designates
 				if idx, ok := paramStores[x.Call.StaticCallee()]; ok && idx < len(x.Call.Args) {
 					if fa, ok := x.Call.Args[idx].(*ssa.FieldAddr); ok {
-						stores = append(stores, event{x, fa})
+						stores = append(stores, event{x, fa, nil, core.FieldOf(fa)})
 					}
 				}
 			}
 		})
 		for _, ev := range stores {
 			st, fa := ev.at, ev.fa
-			fv := core.FieldOf(fa)
+			fv := ev.fv
 			n++
 			// loads of the same field (any sub-field of it) executed before the store
 			var loads []ssa.Instruction
@@ -347,7 +381,11 @@ func RuleCInferFresh(c *core.Ctx) {
 				if !ok || ld.Op != token.MUL {
 					return
 				}
-				if !addrUnderField(p, ld.X, fa) {
+				if fa != nil {
+					if !addrUnderField(p, ld.X, fa) {
+						return
+					}
+				} else if !addrUnderPtr(p, ld.X, ev.ptr) {
 					return
 				}
 				if before(ld, st) {
@@ -395,7 +433,7 @@ func RuleCInferFresh(c *core.Ctx) {
 			}
 		}
 	}
-	c.Floor(rule, 2)
+	c.Floor(rule, 1)
 }
 
 func uniq(ss []string) []string {
@@ -430,6 +468,22 @@ func addrUnderField(p *core.Prog, addr ssa.Value, fa *ssa.FieldAddr) bool {
 		}
 		addr = a.X
 	}
+}
+
+// addrUnderPtr: addr is the pointer value ptr itself or a field address under
+// an equal pointer value.
+func addrUnderPtr(p *core.Prog, addr, ptr ssa.Value) bool {
+	for i := 0; i < 6; i++ {
+		if addr == ptr || p.SameExpr(addr, ptr) {
+			return true
+		}
+		a, ok := addr.(*ssa.FieldAddr)
+		if !ok {
+			return false
+		}
+		addr = a.X
+	}
+	return false
 }
 
 // before: instruction a executes before b on some path without b in between
